@@ -69,6 +69,10 @@ var c14Offers = []extElem{
 	{"permessage-deflate; client_max_window_bits=08", 0, false, false},
 	{"permessage-deflate; client_max_window_bits=+15", 0, false, false},
 	{"permessage-deflate; client_max_window_bits=\"012\"; client_no_context_takeover", 0, true, false},
+	// every ";" is followed by a parameter (RFC 6455 9.1): an empty one makes the offer malformed
+	{"permessage-deflate;", 0, false, false},
+	{"permessage-deflate; client_no_context_takeover;", 0, true, false},
+	{"permessage-deflate; ; server_no_context_takeover", 0, false, true},
 	{"x-webkit-deflate-frame", 0, false, false},
 	{"permessage-bzip2", 0, false, false},
 	{"superspeed; colormode=rgb", 0, false, false},
@@ -95,6 +99,9 @@ var c14Resps = []respElem{
 	{"permessage-deflate; client_max_window_bits=10", [3]int{0, 0, 0}, false, false},
 	{"permessage-deflate; client_max_window_bits", [3]int{0, 0, 0}, false, false},
 	{"permessage-deflate; unknown_param", [3]int{0, 0, 0}, false, false},
+	{"permessage-deflate;", [3]int{0, 0, 0}, false, false},
+	{"permessage-deflate; server_no_context_takeover;", [3]int{0, 0, 0}, false, true},
+	{"permessage-deflate; ; client_no_context_takeover", [3]int{0, 0, 0}, true, false},
 	{"permessage-deflate; client_no_context_takeover; bogus=1", [3]int{0, 0, 0}, true, false},
 	{"x-webkit-deflate-frame", [3]int{0, 0, 0}, false, false},
 	{"permessage-deflate, superspeed", [3]int{0, 0, 0}, false, false},
@@ -421,7 +428,7 @@ func c14Other(libRole Role, p wire.Params, mode int) {
 	}
 }
 
-var c14Depth atomic.Int64
+var c14Depth, c14Mixed atomic.Int64
 
 func c14Exchange(r *fw.R, what string, c *websocket.Conn, peerEnd *xport.End, libRole Role, p wire.Params, expectCompression bool) {
 	c14ExchangeMode(r, what, c, peerEnd, libRole, p, expectCompression, -1)
@@ -482,10 +489,15 @@ func c14ExchangeMode(r *fw.R, what string, c *websocket.Conn, peerEnd *xport.End
 	}
 	// peer -> library, compressed with the client's/server's side of the agreement
 	def := &wire.Deflater{Takeover: p.SenderTakeover(libRole == RoleServer)}
+	mixed := c14Mixed.Add(1)%2 == 0
 	for i := 0; i < n; i++ {
 		m := append([]byte(fmt.Sprintf("peer-msg-%d:", i)), base[100:400+30*i]...)
 		f := wire.Data(wire.OpBinary, true, m)
-		if p.Deflate {
+		if p.Deflate && (i == 2 || i == 4) && mixed {
+			// a sender may leave any message uncompressed: such a message is not part of the compression context
+			// of either side, and the compressed ones after it still refer back to the compressed ones before it
+			r.Count("uncompressed_messages_between_compressed_ones", 1)
+		} else if p.Deflate {
 			f = wire.Data(wire.OpBinary, true, def.Message(m, 6, wire.EndSync))
 			f.Rsv1 = true
 		}
